@@ -5,6 +5,8 @@
 pub mod alloc;
 pub mod fio;
 pub mod ledger;
+pub mod rec;
+pub mod engine;
 pub mod rng;
 pub mod tok;
 
@@ -33,5 +35,24 @@ pub fn fold_str(h: &mut u64, s: &str) {
 pub fn silence_panics() {
     if std::env::var_os("SIMRT_PANIC_VERBOSE").is_none() {
         std::panic::set_hook(Box::new(|_| {}));
+    }
+}
+
+/// Crash supervision: the index of the run in progress is kept in a small file (rewritten in
+/// place, one `write` per run) so that the supervisor knows which run killed the process.
+pub struct Progress {
+    file: Option<std::fs::File>,
+}
+
+impl Progress {
+    pub fn open(path: Option<&str>) -> Self {
+        Progress { file: path.and_then(|p| std::fs::OpenOptions::new().create(true).write(true).truncate(true).open(p).ok()) }
+    }
+    pub fn mark(&mut self, index: u64) {
+        use std::io::{Seek, SeekFrom, Write};
+        if let Some(f) = self.file.as_mut() {
+            let _ = f.seek(SeekFrom::Start(0));
+            let _ = f.write_all(format!("{:020}\n", index).as_bytes());
+        }
     }
 }
